@@ -4,7 +4,11 @@ package main
 // replaced by a recording writer (file rotation, the logger's midnight
 // blackout and disk errors are outside every claim that uses it).
 
-import "strings"
+import (
+	"strings"
+
+	"golang.org/x/tools/go/ssa"
+)
 
 type dlog struct {
 	dir, leader, trailer string
@@ -20,12 +24,43 @@ func icBufioNewReader(fr *frame, args []value) value {
 	panic(pathAbort{"bufio.NewReader"})
 }
 
+// os.Stdin / os.Stdout: a scripted source (verifSetStdin: data delivered in
+// chunks of a chosen size, then io.EOF) and a recording sink (verifStdout).
 func icFileRead(fr *frame, args []value) value {
-	panic(pathAbort{"(*os.File).Read"})
+	m := fr.m
+	o, _ := args[0].(*opaque)
+	if o == nil || o.kind != "os.Stdin" {
+		panic(pathAbort{"(*os.File).Read on a file other than os.Stdin"})
+	}
+	p, _ := args[1].([]value)
+	if len(m.stdin) == 0 {
+		eof := m.p.pkgs["io"].Members["EOF"].(*ssa.Global)
+		return tuple{BV(0, 64), *m.global(eof)}
+	}
+	n := m.stdinChunk
+	if n > len(p) {
+		n = len(p)
+	}
+	if n > len(m.stdin) {
+		n = len(m.stdin)
+	}
+	for i := 0; i < n; i++ {
+		p[i] = m.stdin[i]
+	}
+	m.stdin = m.stdin[n:]
+	return tuple{BV(uint64(n), 64), iface{}}
 }
 
 func icFileWrite(fr *frame, args []value) value {
-	panic(pathAbort{"(*os.File).Write"})
+	m := fr.m
+	o, _ := args[0].(*opaque)
+	bs, _ := args[1].([]value)
+	if o != nil && o.kind == "os.Stdout" {
+		m.stdout = append(m.stdout, bs...)
+	} else if o == nil || o.kind != "os.Stderr" {
+		panic(pathAbort{"(*os.File).Write on a file other than os.Stdout/os.Stderr"})
+	}
+	return tuple{BV(uint64(len(bs)), 64), iface{}}
 }
 
 func icDailyLoggerNew(fr *frame, args []value) value {
